@@ -28,7 +28,7 @@ ASSUMPTIONS = [
     "fitted estimators are third-party; only what black_it passes to and takes from them is judged",
 ]
 REQUIRED_COUNTERS = {f"nomod_{k}": 6 for k in G.SAMPLER_KINDS}
-REQUIRED_COUNTERS.update({"stub_histories_with_nonfinite_losses": 15, "nomod_second_call_on_extended_history": 30, "direct_sample_batch_other_size": 60, "estimator_fits_observed": 40, "second_history_same_length": 40, "stub_calls": 100, "real_surrogate_calls": 30, "bestbatch_proposals": 200, "extreme_histories": 50, "boundary_ties": 20})
+REQUIRED_COUNTERS.update({"bestbatch_calls_on_extended_history": 20, "bestbatch_calls_on_unrelated_history": 8, "histories_with_points_outside_the_space": 20, "stub_subclasses_with_their_own_pool": 15, "stub_predictions_as_list_or_tuple": 25, "stub_predictions_with_infinities": 6, "stub_histories_with_nonfinite_losses": 15, "nomod_second_call_on_extended_history": 30, "direct_sample_batch_other_size": 60, "estimator_fits_observed": 40, "second_history_same_length": 40, "stub_calls": 100, "real_surrogate_calls": 30, "bestbatch_proposals": 200, "extreme_histories": 50, "boundary_ties": 20})
 SHARDS = {"quick": 16, "thorough": 16}
 SHARD_WATCHDOG = {"quick": 1500, "thorough": 10800}
 
@@ -178,9 +178,19 @@ def run_case(desc, ctx):
                     losses[int(rng.integers(n))] = np.nan
                 lk = "extreme"
                 cnt("stub_histories_with_nonfinite_losses")
+            if rng.random() < 0.25:
+                # a refined run with narrower bounds that re-uses earlier evaluations: some history points lie OUTSIDE the space given now
+                pts = np.array(pts, copy=True)
+                width = space.parameters_bounds[1] - space.parameters_bounds[0]
+                for r_ in rng.choice(len(pts), size=min(len(pts), int(rng.integers(1, 4))), replace=False):
+                    j_ = int(rng.integers(space.dims))
+                    pts[r_, j_] = space.parameters_bounds[int(rng.integers(2)), j_] + float(rng.choice([-1.0, 1.0])) * width[j_] * float(rng.choice([2.0, 1e-9, 0.5]))
+                cnt("histories_with_points_outside_the_space")
             seen = {"fit": [], "predict": [], "pool": [], "batches": [], "estimator_fit": []}
-            pmode = str(rng.choice(["random", "constant", "ties", "linear", "large_offset", "huge"]))
+            pmode = str(rng.choice(["random", "constant", "ties", "linear", "large_offset", "huge", "neg_inf"]))
             pseed = int(rng.integers(2**31))
+            ptype = str(rng.choice(["ndarray", "ndarray", "list", "tuple"]))     # what a user-written predict returns: not necessarily an ndarray
+            own_pool = bool(kind == "stub" and rng.random() < 0.3)               # a subclass that overrides sample_candidates only
 
             if kind == "stub":
                 class Stub(MLSurrogateSampler):
@@ -188,7 +198,17 @@ def run_case(desc, ctx):
                         pass
 
                     def predict(self, X):
+                        v = self._predict(X)
+                        return v if ptype == "ndarray" else (v.tolist() if ptype == "list" else tuple(v.tolist()))
+
+                    def _predict(self, X):
                         r = np.random.default_rng(pseed + len(seen["predict"]))
+                        if pmode == "neg_inf":          # log-scale scores: -inf is the lowest prediction there is
+                            v = r.normal(size=len(X))
+                            v[r.random(len(X)) < 0.15] = -np.inf
+                            if r.random() < 0.3:
+                                v[r.random(len(X)) < 0.1] = np.inf
+                            return v
                         if pmode == "random":
                             return r.normal(size=len(X))
                         if pmode == "constant":
@@ -201,6 +221,21 @@ def run_case(desc, ctx):
                             return 10.0 ** r.uniform(30, 300, size=len(X))
                         return X @ r.normal(size=X.shape[1])
 
+                if own_pool:
+                    def _own_pool(self, batch_size, search_space, existing_points, existing_losses):
+                        r = np.random.default_rng(pseed ^ 0x5A5A)
+                        idx = [r.integers(0, len(g), size=self.candidate_pool_size) for g in search_space.param_grid]
+                        # the first grid points of every axis only: a pool the default generator would hardly ever produce
+                        pool_ = np.column_stack([g[np.minimum(i_, max(1, len(g) // 3))] for g, i_ in zip(search_space.param_grid, idx)])
+                        seen["pool"].append(np.array(pool_, copy=True))
+                        return pool_
+
+                    Stub.sample_candidates = _own_pool
+                    cnt("stub_subclasses_with_their_own_pool")
+                if ptype != "ndarray":
+                    cnt("stub_predictions_as_list_or_tuple")
+                if pmode == "neg_inf":
+                    cnt("stub_predictions_with_infinities")
                 cls = Stub
                 with quiet():
                     sampler = Stub(bs, random_state=int(rng.integers(2**31)), max_deduplication_passes=int(rng.choice([0, 2, 5])), candidate_pool_size=pool_n)
@@ -262,6 +297,9 @@ def run_case(desc, ctx):
                 cnt("rejected_timeout")
                 continue
             except Exception as e:  # noqa: BLE001
+                if kind == "stub":
+                    # nothing in the stub raises: whatever its predict returns (ndarray, list, tuple; finite or not), a batch is due
+                    bad(f"stub surrogate (predictions: {pmode} as {ptype}): sample() raised {type(e).__name__}: {str(e)[:160]}", w)
                 cnt(f"rejected_{smp['kind']}")
                 continue
             out["evals"] += len(seen["batches"])  # one evaluation per sample_batch selection judged
@@ -301,7 +339,7 @@ def run_case(desc, ctx):
                 if not np.array_equal(Xp, pool):
                     bad(f"{smp['kind']}: predict() was not evaluated on the candidate pool", w)
                     break
-                if pred is None or not np.all(np.isfinite(np.asarray(pred, dtype=float))):
+                if pred is None or np.any(np.isnan(np.asarray(pred, dtype=float))):
                     continue
                 why = check_selection(pool, pred, res, req)
                 if why:
@@ -330,62 +368,77 @@ def run_case(desc, ctx):
             losses, _ = extreme_losses(rng, n)
             losses[np.isneginf(losses)] = -1e300
             cnt("extreme_histories")
-        w = {"sampler": smp, "space": sd, "n_history": n, "loss_kind": lk, "losses": losses}
-        got_batches = []
-
-        def post_batch(tok, res, err, self, batch_size, *a, **k):
-            if res is not None:
-                got_batches.append(np.array(res, copy=True))
-
         from black_it.samplers.best_batch import BestBatchSampler
 
-        try:
-            with Wrap(BestBatchSampler, "sample_batch", post=post_batch), quiet():
-                sampler = G.build_sampler(smp)
-                sampler.sample(space, pts, losses)
-        except Exception as e:  # noqa: BLE001
-            bad(f"BestBatch: sample() raised {type(e).__name__}: {e}", w)
-            continue
-        out["evals"] += 1
-        cut = np.sort(losses)[bs - 1]
-        cand = pts[losses <= cut]
-        if np.sum(losses == cut) > 1 and np.sum(losses <= cut) > bs:
-            cnt("boundary_ties")
-        lo, up, prec = space.parameters_bounds[0], space.parameters_bounds[1], space.parameters_precision
-        from vlib.props.c17 import judge  # snapping oracle (float-nearest)
+        with quiet():
+            sampler = G.build_sampler(smp)
+        n_steps = int(rng.choice([1, 1, 2, 3]))
+        for step in range(n_steps):
+            if step > 0:
+                # the same sampler object is asked again: on the history extended by its own last batch (whose losses may be the new best
+                # or the new worst), or on an unrelated, possibly SHORTER history (object re-used for another calibration)
+                if rng.random() < 0.7 and got_batches:
+                    newp = got_batches[0]
+                    newl = rng.random(len(newp)) * float(rng.choice([1e-3, 1.0, 1e3])) + float(rng.choice([0.0, np.min(losses) - 1.0]))
+                    pts, losses = np.vstack((pts, newp)), np.concatenate((losses, newl))
+                    cnt("bestbatch_calls_on_extended_history")
+                else:
+                    n = int(rng.integers(bs, max(bs + 1, n)))
+                    pts, losses, lk = G.gen_history(rng, space, n)
+                    cnt("bestbatch_calls_on_unrelated_history")
+            w = {"sampler": smp, "space": sd, "n_history": len(pts), "loss_kind": lk, "losses": losses, "call_on_this_object": step}
+            got_batches = []
 
-        def allowed(hj, j, ks):
-            vals = set()
-            for k in ks:
-                # an untouched coordinate (k == 0) is not clipped by the sampler: the grid may exceed the upper bound by its 1e-7 tolerance
-                v = float(hj) if k == 0 else float(np.clip(hj + prec[j] * k, lo[j], up[j]))
-                g = space.param_grid[j]
-                d = np.abs(g - v)
-                for e in g[d <= d.min()]:
-                    vals.add(float(e))
-                vals.add(v)
-            return vals
+            def post_batch(tok, res, err, self, batch_size, *a, **k):
+                if res is not None:
+                    got_batches.append(np.array(res, copy=True))
 
-        ks_move = [k for k in range(-(R - 1), R) if k != 0]
-        for b in got_batches:
-            for q in b:
-                cnt("bestbatch_proposals")
-                ok = False
-                for h in cand:
-                    moved = False
-                    fits = True
-                    for j in range(space.dims):
-                        if q[j] in allowed(h[j], j, ks_move):
-                            moved = True
-                        elif q[j] not in allowed(h[j], j, [0]):
-                            fits = False
+            try:
+                with Wrap(BestBatchSampler, "sample_batch", post=post_batch), quiet():
+                    sampler.sample(space, pts, losses)
+            except Exception as e:  # noqa: BLE001
+                bad(f"BestBatch: sample() raised {type(e).__name__}: {e}", w)
+                break
+            out["evals"] += 1
+            cut = np.sort(losses)[bs - 1]
+            cand = pts[losses <= cut]
+            if np.sum(losses == cut) > 1 and np.sum(losses <= cut) > bs:
+                cnt("boundary_ties")
+            lo, up, prec = space.parameters_bounds[0], space.parameters_bounds[1], space.parameters_precision
+            from vlib.props.c17 import judge  # snapping oracle (float-nearest)
+
+            def allowed(hj, j, ks):
+                vals = set()
+                for k in ks:
+                    # an untouched coordinate (k == 0) is not clipped by the sampler: the grid may exceed the upper bound by its 1e-7 tolerance
+                    v = float(hj) if k == 0 else float(np.clip(hj + prec[j] * k, lo[j], up[j]))
+                    g = space.param_grid[j]
+                    d = np.abs(g - v)
+                    for e in g[d <= d.min()]:
+                        vals.add(float(e))
+                    vals.add(v)
+                return vals
+
+            ks_move = [k for k in range(-(R - 1), R) if k != 0]
+            for b in got_batches:
+                for q in b:
+                    cnt("bestbatch_proposals")
+                    ok = False
+                    for h in cand:
+                        moved = False
+                        fits = True
+                        for j in range(space.dims):
+                            if q[j] in allowed(h[j], j, ks_move):
+                                moved = True
+                            elif q[j] not in allowed(h[j], j, [0]):
+                                fits = False
+                                break
+                        if fits and moved:
+                            ok = True
                             break
-                    if fits and moved:
-                        ok = True
+                    if not ok:
+                        bad(f"BestBatch: proposal {q.tolist()} is not one of the {bs} lowest-loss points displaced by 1..{R - 1} steps on >=1 coordinate", dict(w, best_points=cand[:8]))
                         break
-                if not ok:
-                    bad(f"BestBatch: proposal {q.tolist()} is not one of the {bs} lowest-loss points displaced by 1..{R - 1} steps on >=1 coordinate", dict(w, best_points=cand[:8]))
-                    break
-        if extreme or lk in ("ties", "equal"):
-            out["nontrivial"].append(jhash([smp, sd, losses.tolist()]))
+            if extreme or lk in ("ties", "equal"):
+                out["nontrivial"].append(jhash([smp, sd, losses.tolist()]))
     return out
